@@ -361,3 +361,48 @@ def copy_source_is_the_callers(ctx):
         ok = len(cs) == 1 and norm(kwarg(cs[0], 'CopySource')) == 'copy_source' and 'copy_source' in f.params \
             and not [x for x in own_nodes(f.node) if isinstance(x, (ast.Assign, ast.AugAssign)) and 'copy_source' in {norm(t) for t in (x.targets if isinstance(x, ast.Assign) else [x.target])}]
         ctx.ob(f, f'{op}(CopySource=copy_source) with the parameter as received', ok, 'the source handed to the task must be the source S3 copies from')
+
+
+@rule('C01.g', ['C01'], floor=2)
+def buffered_prefix_is_viewed_consistently(ctx):
+    """Contradiction rule for the non-seekable manager's buffered prefix: within one method, if some
+    use of self._initial_data that flows into the data handed out is sliced from a position kept in
+    state (`[start:...]`), then no other such use may take the buffer whole or from its beginning -
+    one of the two beliefs about where the unread data starts is wrong, and the wrong one re-sends
+    or skips bytes."""
+    cl = ctx.cls('upload.UploadNonSeekableInputManager')
+    n = 0
+    for m in cl.methods.values():
+        uses = []
+        for x in own_nodes(m.node):
+            if isinstance(x, ast.Attribute) and dotted(x) == 'self._initial_data' and isinstance(x.ctx, ast.Load):
+                par = x._parent
+                if isinstance(par, ast.Call) and norm(par.func) == 'len':
+                    continue
+                if isinstance(par, ast.Subscript) and par.value is x and isinstance(par.slice, ast.Slice):
+                    lo = par.slice.lower
+                    kind = 'offset' if lo is not None and not (isinstance(lo, ast.Constant) and lo.value == 0) and not (isinstance(lo, ast.Name) and lo.id in m.params) else 'from-start'
+                    # `initial[amount:]` stored back into the buffer is the truncation itself, not a view of unread data
+                    st = q_enclosing_assign(par)
+                    if st is not None and any(dotted(t) == 'self._initial_data' for t in st.targets):
+                        continue
+                    uses.append((kind, par))
+                elif isinstance(par, ast.Compare):
+                    continue
+                else:
+                    uses.append(('whole', x))
+        if not uses:
+            continue
+        n += 1
+        kinds = {k for k, _ in uses}
+        ok = not ('offset' in kinds and (kinds & {'whole', 'from-start'}))
+        bad = next((u for k, u in uses if k in ('whole', 'from-start')), None) if not ok else None
+        ctx.ob(m, bad if bad is not None else f'{m.name}: uses of self._initial_data agree on where the unread data starts', ok,
+               'the buffer is read from a tracked offset in one place and from its beginning in another: already sent bytes are sent again (or unsent ones skipped)')
+    ctx.need(n >= 2, f'only {n} methods use the buffered prefix')
+
+
+def q_enclosing_assign(node):
+    from ..ir import enclosing_stmt
+    st = enclosing_stmt(node)
+    return st if isinstance(st, ast.Assign) else None
